@@ -215,20 +215,31 @@ def negative(hr, vers, frng, case, stats, faults, probes) -> int:
         full = os.path.join(root, rel)
         with fslayer.real_open(full, "rb") as f:
             orig = f.read()
+        st0 = os.stat(full)
         if new_bytes is not None and new_bytes == orig:
             return  # not an alteration
         try:
             if new_bytes is None:
                 os.unlink(full)
             else:
-                with fslayer.real_open(full, "wb") as f:
+                with fslayer.real_open(full, "r+b") as f:
+                    f.truncate(0)
                     f.write(new_bytes)
+                # bytes change at rest: same inode, same time stamps (bit
+                # rot, or a tool that restores mtime)
+                os.utime(full, ns=(st0.st_atime_ns, st0.st_mtime_ns))
             faults[name] += 1
             stats["faults_evaluated"] += 1
             miss = detected(kind)
         finally:
-            with fslayer.real_open(full, "wb") as f:
-                f.write(orig)
+            if os.path.exists(full):
+                with fslayer.real_open(full, "r+b") as f:
+                    f.truncate(0)
+                    f.write(orig)
+            else:
+                with fslayer.real_open(full, "wb") as f:
+                    f.write(orig)
+            os.utime(full, ns=(st0.st_atime_ns, st0.st_mtime_ns))
         if miss:
             level = rel.count("/")
             raise Violation(
@@ -244,7 +255,6 @@ def negative(hr, vers, frng, case, stats, faults, probes) -> int:
             data = f.read()
         n = len(data)
         probes["target_%s_level_%d" % (kind, rel.count("/"))] += 1
-        inject(kind, rel, "delete", None)
         inject(kind, rel, "empty", b"")
         inject(kind, rel, "extend", data + frng.randbytes(frng.randrange(1, 4)))
         inject(kind, rel, "extend_newline", data + b"\n")
@@ -275,13 +285,21 @@ def negative(hr, vers, frng, case, stats, faults, probes) -> int:
                 odata = f.read()
             if odata == data:
                 continue
-            with fslayer.real_open(ofull, "wb") as f:
+            ost = os.stat(ofull)
+            with fslayer.real_open(ofull, "r+b") as f:
+                f.truncate(0)
                 f.write(data)
+            os.utime(ofull, ns=(ost.st_atime_ns, ost.st_mtime_ns))
             try:
                 inject(kind, rel, "swap", odata, f"with {other}")
             finally:
-                with fslayer.real_open(ofull, "wb") as f:
+                with fslayer.real_open(ofull, "r+b") as f:
+                    f.truncate(0)
                     f.write(odata)
+                os.utime(ofull, ns=(ost.st_atime_ns, ost.st_mtime_ns))
+        # deletion last: re-creating the file afterwards gives it a new inode,
+        # in-place faults above keep inode and time stamps
+        inject(kind, rel, "delete", None)
     stats["files_attacked"] += len(targets)
     if case["exhaustive"]:
         probes["exhaustive_offsets"] += 1
